@@ -40,6 +40,8 @@ func runC12(p *eng.Prog, r *eng.Report, tier string) {
 	jidCore(c, "C12.14")
 	c12HeaderAddressesWhole(c, "C12.13")
 	c12OriginHandedOnWhole(c, "C12.15")
+	c12HeaderKeepsAbsent(c, "C12.16")
+	c12BindReplyIDFirst(c, "C12.17")
 	// C12.11 a stream error with an application condition (or any unknown
 	// child) is still decoded as the stream error: the hand-written token loop
 	// of stream.Error consumes every child it meets
@@ -921,6 +923,25 @@ func c12HeaderAddressesWhole(c *cx, id string) {
 		}
 	}
 	c.r.Floor(id, "address operands of stream.Send in the negotiator", n, 4)
+	// the response header (receiving role) is addressed from what the header it
+	// answers said: to = that header's from, from = that header's to - also
+	// when this is the header from which the origin is first learned
+	okResp := false
+	for _, f := range c.allFns() {
+		if !strings.HasPrefix(f.Short, "xmpp.negotiator") {
+			continue
+		}
+		for _, cl := range f.Calls("internal/stream.Send") {
+			if len(cl.Args) < 7 {
+				continue
+			}
+			cp, _ := f.Graph().Where(cl)
+			if f.Norm(cl.Args[5], &cp) == "jid.JID.String[p1.From]()" && f.Norm(cl.Args[6], &cp) == "jid.JID.String[p1.To]()" {
+				okResp = true
+			}
+		}
+	}
+	c.r.CheckNamed(id, "xmpp.negotiator$1", "response header addresses", "K: one Send of the negotiator (the response header) has to = in.From and from = in.To of the header just read", 0, okResp, "no Send is addressed with the addresses of the header it answers (a stale origin: the first response to a client that states its from carries no to)")
 }
 
 // c12OriginHandedOnWhole (C12.15): the constructors outside the root package
@@ -951,4 +972,41 @@ func c12OriginHandedOnWhole(c *cx, id string) {
 		}
 	}
 	c.r.Floor(id, "session constructors outside the root package", n, 2)
+}
+
+// c12BindReplyIDFirst (C12.17): "a reply with another id is not the answer": on
+// the initiating side of resource binding everything that is concluded from
+// the reply - the error it carries, the address it assigns - is concluded
+// behind the comparison of its id with the request's id. Every return of the
+// reply's own error (resp.Err) and every UpdateAddr lies behind the edge
+// resp.ID == reqID (a stray or forged error reply is otherwise reported as the
+// server's refusal of OUR request).
+func c12BindReplyIDFirst(c *cx, id string) {
+	bf := c.fn(id, "", "bind")
+	if bf == nil {
+		return
+	}
+	n := 0
+	for _, f := range bf.Lits {
+		g := f.Graph()
+		if len(g.EdgesMatching("eq(internal/attr.RandomID(),*.ID)"))+len(g.EdgesMatching("eq(*.ID,internal/attr.RandomID())")) == 0 {
+			continue
+		}
+		pats := []string{"eq(internal/attr.RandomID(),*.ID)", "eq(*.ID,internal/attr.RandomID())"}
+		for _, rs := range g.Returns {
+			if len(rs.Results) != 3 {
+				continue
+			}
+			rp, _ := g.Where(rs)
+			if strings.HasSuffix(f.Norm(rs.Results[2], &rp), ".Err") || strings.Contains(f.Norm(rs.Results[2], &rp), "&local:stanzaErr") {
+				n++
+				c.domAny(id, f, rs, "the reply's own error returned", pats)
+			}
+		}
+		for _, cl := range f.Calls("xmpp.Session.UpdateAddr") {
+			n++
+			c.domAny(id, f, cl, "address taken from the reply", pats)
+		}
+	}
+	c.r.Floor(id, "conclusions drawn from the bind reply", n, 2)
 }
